@@ -87,10 +87,87 @@ theorem wire_form (as : Attrs) (n : Nat) (h : encodedLen as = .ok n) :
       (((as.filter validType).map avpBytes).flatten).length = n := by
   rw [← encodeBytes_eq_flatten]; exact encodeTo_of_encodedLen as n h
 
+/-! ### Algebraic laws (corollaries; every one is a statement about the Go loops) -/
+
+theorem del_idem (as : Attrs) (k : Int) : (as.del k).del k = as.del k := by
+  simp only [del_eq_filter]; exact filter_ne_idem as k
+
+theorem del_comm (as : Attrs) (j k : Int) : (as.del j).del k = (as.del k).del j := by
+  simp only [del_eq_filter, List.filter_filter]
+  congr 1; funext a; exact Bool.and_comm _ _
+
+theorem add_then_del (as : Attrs) (k : Int) (v : Bytes) : (as.add k v).del k = as.del k := by
+  simp [del_eq_filter, Attrs.add]
+
+theorem set_after_del (as : Attrs) (k : Int) (v : Bytes) :
+    (as.del k).set k v = as.del k ++ [⟨k, v⟩] := by
+  rw [set_eq_spec, del_eq_filter]; unfold Spec.set
+  have : (as.filter (fun a => a.typ ≠ k)).any (fun a => a.typ = k) = false := by
+    simp [List.any_filter]
+  rw [this]; simp
+
+theorem del_after_set (as : Attrs) (k : Int) (v : Bytes) : (as.set k v).del k = as.del k := by
+  rw [del_eq_filter, del_eq_filter, set_eq_spec]; exact specSet_filter_ne as k v
+
+theorem del_length_le (as : Attrs) (k : Int) : (as.del k).length ≤ as.length := by
+  rw [del_eq_filter]; exact List.length_filter_le _ _
+
+/-- Set twice: the second value wins and the position is the same as a single Set. -/
+theorem set_set (as : Attrs) (k : Int) (v w : Bytes) : (as.set k v).set k w = as.set k w := by
+  simp only [set_eq_spec]
+  unfold Spec.set
+  by_cases h : as.any (fun a => a.typ = k) = true
+  · rw [if_pos h, if_pos (setAux_any k v as h), if_pos h, setAux_setAux]
+  · have h' : as.any (fun a => a.typ = k) = false := by simpa using h
+    rw [if_neg h]
+    have : (as ++ [(⟨k, v⟩ : AVP)]).any (fun a => a.typ = k) = true := by simp
+    rw [if_pos this, setAux_append_absent k v w as h', if_neg h]
+
+theorem set_idem (as : Attrs) (k : Int) (v : Bytes) : (as.set k v).set k v = as.set k v :=
+  set_set as k v v
+
+/-- Set and Del of one type leave every other type's first value as it was. -/
+theorem lookup_other (as : Attrs) (o : Op) (j : Int) (hj : j ≠ o.key) :
+    (stepModel as o).lookup j = as.lookup j :=
+  lookup_other_of_filter_ne as (stepModel as o) j o.key hj (others_untouched as o)
+
+/-- Add never shadows a value that is already there: the first value of the type stays the first. -/
+theorem add_keeps_first (as : Attrs) (k : Int) (v x : Bytes) (h : as.lookup k = some x) :
+    (as.add k v).lookup k = some x := by
+  rw [lookup_eq_find] at h ⊢
+  simp only [Attrs.add, List.find?_append]
+  cases hf : as.find? (fun a => a.typ = k) with
+  | none => rw [hf] at h; cases h
+  | some a => rw [hf] at h; simpa using h
+
+/-- Any operation sequence that never names type `j` leaves the attributes of type `j` — their
+    values, their number and their order — exactly as they were. -/
+theorem untouched_by_sequence (as : Attrs) (ops : List Op) (j : Int) (h : ∀ o ∈ ops, o.key ≠ j) :
+    (ops.foldl stepModel as).filter (fun a => a.typ = j) = as.filter (fun a => a.typ = j) := by
+  induction ops generalizing as with
+  | nil => rfl
+  | cons o ops ih =>
+    rw [List.foldl_cons, ih _ (fun o' ho' => h o' (List.mem_cons_of_mem _ ho'))]
+    exact filter_eq_of_filter_ne as (stepModel as o) j o.key
+      (fun e => h o List.mem_cons_self e.symm) (others_untouched as o)
+
+/-- After any operation sequence, the value `Lookup` reports for a type is decided by the LAST
+    `Set`/`Del` of that type only when one exists: a trailing `Set` always wins. -/
+theorem last_set_wins (as : Attrs) (ops : List Op) (k : Int) (v : Bytes) :
+    ((ops ++ [Op.set k v]).foldl stepModel as).lookup k = some v := by
+  rw [List.foldl_append]; exact set_then_lookup _ k v
+
+theorem last_del_wins (as : Attrs) (ops : List Op) (k : Int) :
+    ((ops ++ [Op.del k]).foldl stepModel as).lookup k = none := by
+  rw [List.foldl_append]; exact del_none_left _ k
+
 /-! Non-vacuity (tests) -/
 example : Attrs.del [⟨1, [1]⟩, ⟨2, []⟩, ⟨1, [2]⟩, ⟨1, [3]⟩] 1 = [⟨2, []⟩] := by
   simp [del_eq_filter]
 example : Attrs.set [⟨1, [1]⟩, ⟨2, []⟩, ⟨1, [2]⟩] 1 [9] = [⟨1, [9]⟩, ⟨2, []⟩] := by
   rw [set_eq_spec]; simp [Spec.set, Spec.setAux]
+
+example : Attrs.set (Attrs.set [⟨1, [1]⟩, ⟨2, []⟩, ⟨1, [2]⟩] 1 [9]) 1 [7] = [⟨1, [7]⟩, ⟨2, []⟩] := by
+  rw [set_set, set_eq_spec]; simp [Spec.set, Spec.setAux]
 
 end RV.C09
